@@ -3807,6 +3807,10 @@ class PyCdlib:
         if self._initialized:
             raise pycdlibexception.PyCdlibInvalidInput('This object already has an ISO; either close it or create a new object')
 
+        # Start from a clean slate, even if an earlier new() or open() on this
+        # object failed part of the way through.
+        self._initialize()
+
         if interchange_level < 1 or interchange_level > 4:
             raise pycdlibexception.PyCdlibInvalidInput('Invalid interchange level (must be between 1 and 4)')
 
@@ -4075,6 +4079,10 @@ class PyCdlib:
         if self._initialized:
             raise pycdlibexception.PyCdlibInvalidInput('This object already has an ISO; either close it or create a new object')
 
+        # Start from a clean slate, even if an earlier new() or open() on this
+        # object failed part of the way through.
+        self._initialize()
+
         fp = open(filename, mode)  # pylint: disable=consider-using-with,unspecified-encoding
         self._managing_fp = True
         try:
@@ -4103,6 +4111,10 @@ class PyCdlib:
         """
         if self._initialized:
             raise pycdlibexception.PyCdlibInvalidInput('This object already has an ISO; either close it or create a new object')
+
+        # Start from a clean slate, even if an earlier new() or open() on this
+        # object failed part of the way through.
+        self._initialize()
 
         try:
             self._open_fp(fp)
